@@ -756,6 +756,60 @@ class Run:
                     self.queued_ops = burst[1:]
                     self.count('gen:toggle-burst')
                     return dict(burst[0], rs=rs)
+        # partial-row move: an object whose row is only partly known to the cache (created with optional attributes left empty and INSERTed:
+        # the None values are dropped; or a seed, known through another object's foreign key only) gets a scalar assigned, then - before any
+        # flush - its row is loaded INSIDE a call (assignment of its not-loaded reference, or an add from the collection side of it, both
+        # under flush_disabled), then commit: the loaded row must not overwrite the assigned value
+        if 0.17 <= r < 0.22:
+            cands = []
+            for e, ed in enumerate(w.schema['ents']):
+                opt = [s for s in ed['scalars'] if not s['req']]
+                keys = [key for key in w.ent_rel[e] if not w.sides[key]['coll'] and not w.sides[key]['req']]
+                if opt and keys: cands.append((e, opt, keys))
+            if cands:
+                e, opt, keys = rng.choice(cands)
+                key = rng.choice(keys); rkey = w.rev(key); sym = w.schema['rels'][key[0]]['sym']
+                sc = rng.choice(opt)
+                val = rng.choice([0, 1, 2, 3, 4, 5]) if sc.get('unique') else rng.choice([1, 2, 3])
+                tail = [{'k': rng.choice(['commit', 'commit', 'end_ok', 'flush']), 'noreads': True}] if rng.random() < 0.85 else []
+                def link_ops(x, tgt):
+                    t = rng.choice(tgt)
+                    if w.sides[rkey]['coll'] and rng.random() < 0.5:
+                        return {'k': 'coll_add', 'o': t, 'key': list(rkey), 'items': [x], 'via': rng.choice(['list', 'single', 'op']), 'noreads': True}
+                    return {'k': 'set_ref', 'o': x, 'key': list(key), 'v': t, 'noreads': True}
+                # a committed object of that entity that another committed object refers to through a column
+                seeds = []
+                for y in live:
+                    oy = sh.objs[y]
+                    if oy['pk'] is None or y not in self.committed.objs or not self.committed.objs[y]['alive']: continue
+                    for ykey in w.ent_rel[oy['ent']]:
+                        ys = w.sides[ykey]
+                        if ys['coll'] or not ys.get('has_col') or w.sides[w.rev(ykey)]['ent'] != e: continue
+                        x = oy['vals'].get(ys['name'])
+                        if x is not None and x != y and x in live and sh.objs[x]['pk'] is not None and x in self.committed.objs and self.committed.objs[x]['alive'] \
+                                and self.committed.objs[y]['vals'].get(ys['name']) == x:
+                            seeds.append((y, ykey, x))
+                if seeds and rng.random() < 0.45:
+                    y, ykey, x = rng.choice(seeds)
+                    tgt = [t for t in self.usable(w.sides[rkey]['ent']) if not (sym and t == x)]
+                    if tgt:
+                        self.queued_ops = [{'k': 'seed_handle', 'o': y, 'key': list(ykey), 'x': x, 'noreads': True},
+                                           {'k': 'set_scalar', 'o': x, 'a': sc['name'], 'v': val, 'noreads': True}, link_ops(x, tgt)] + tail
+                        self.count('gen:partial-row-move:seed')
+                        return {'k': 'end_ok', 'noreads': True, 'rs': rs}
+                cr = self.gen_create(rs, e=e)
+                req_refs = {w.sides[k2]['name'] for k2 in w.ent_rel[e] if w.sides[k2]['req']}
+                cr['scalars'] = {n: v for n, v in cr['scalars'].items() if any(s['name'] == n and s['req'] for s in w.schema['ents'][e]['scalars'])}
+                cr['refs'] = {n: v for n, v in cr['refs'].items() if n in req_refs}
+                cr['colls'] = {}; cr['noreads'] = True
+                new = cr['oid']
+                tgt = [t for t in self.usable(w.sides[rkey]['ent'])]
+                if tgt and all(n in cr['refs'] for n in req_refs):
+                    steps = [{'k': 'set_scalar', 'o': new, 'a': sc['name'], 'v': val, 'noreads': True}, link_ops(new, tgt)]
+                    if rng.random() < 0.2: steps.reverse()
+                    self.queued_ops = [{'k': rng.choice(['flush', 'commit']), 'noreads': True}] + steps + tail
+                    self.count('gen:partial-row-move:created')
+                    return cr
         # follow-up: another call on the collection touched last, re-using the items of that call (interplay of pending additions / removals)
         lc = getattr(self, 'last_coll_gen', None)
         if lc is not None and rng.random() < 0.3 and lc[0] in live:
@@ -851,6 +905,14 @@ class Run:
         if k == 'delete': obj.delete(); return None
         if k == 'set_scalar': setattr(obj, op['a'], op['v']); return None
         key = tuple(op['key']); name = w.sides[key]['name']
+        if k == 'seed_handle':
+            # the program reaches an object through a reference of another one: the object is known by its key only (a seed), its row is not loaded
+            x = getattr(obj, name)
+            if x is not None and op['x'] not in self.h and self.sh.objs[op['x']]['pk'] is not None \
+                    and norm_pk(x._pkval_) == norm_pk(self.sh.objs[op['x']]['pk']) and self.w.classes.index(type(x)) == self.sh.objs[op['x']]['ent']:
+                self.h[op['x']] = x
+                self.count('seed-handle:' + ('seed' if x in self.cache().seeds[x._pk_attrs_] else 'loaded'))
+            return None
         if k == 'set_ref':
             v = None if op['v'] is None else self.resolve(op['v'])
             if op['v'] is not None and v is None: return 'skipped'
@@ -891,7 +953,7 @@ class Run:
         if k == 'create':
             return op['oid'] not in sh.objs and all(ok(x) for x in op['refs'].values()) and all(ok(x) for xs in op['colls'].values() for x in xs)
         if 'o' in op and not ok(op['o']): return False
-        if k == 'coll_in' and not ok(op['x']): return False
+        if k in ('coll_in', 'seed_handle') and not ok(op['x']): return False
         if k == 'set_ref' and op['v'] is not None and not ok(op['v']): return False
         if 'items' in op and not all(ok(x) for x in op['items']): return False
         return True
